@@ -38,3 +38,23 @@ i, j = s.index(a), s.index(b)
 s = s[:i + len(a)] + '\n' + tab + s[j:]
 open(p, 'w').write(s)
 print(tab)
+
+# findings lists (section 9.1 / 9.2) from known_findings.json
+k = json.load(open(os.path.join(V, 'known_findings.json')))['findings']
+fixed = [x for x in k if x['status'] == 'fixed']
+known = [x for x in k if x['status'] == 'known']
+def line(x):
+    w = x['what']
+    w = re.sub(r'^fixed: property=C\d+ ([0-9a-f]{7} )?', '', w)
+    return '* %s(%s) %s' % (('`%s` ' % x['commit']) if x.get('commit') else '', ', '.join(x['properties']), w)
+txt = ('### 9.1 Repaired in /repo (%d commits; `fixed:` entries of known_findings.json)\n\n' % len(fixed) + '\n'.join(line(x) for x in fixed) +
+       '\n\n### 9.2 Recorded as known findings (%d; reported as KNOWN-FINDING lines, exit 0)\n\n'
+       'These were not repaired because the repair is not small and safe (accuracy\nloss that needs a reformulated algorithm, behaviour pinned by an existing\n'
+       'test, or an interface decision for the maintainer).\n\n' % len(known) + '\n'.join(line(x) for x in known) + '\n')
+s2 = open(p).read()
+a, b = '<!-- FINDINGS:BEGIN -->', '<!-- FINDINGS:END -->'
+if a in s2:
+    i, j = s2.index(a), s2.index(b)
+    s2 = s2[:i + len(a)] + '\n' + txt + s2[j:]
+    open(p, 'w').write(s2)
+print(len(fixed), 'fixed', len(known), 'known')
